@@ -80,6 +80,10 @@ CHECKS = {
             "TLC checks on MC_Net, over all histories of calls by two clients, NoPostOnDryRun, OnePostPerRequest, ProfileIsAnonymous, ProfileGoesToConfiguredUrl, CredentialsOnlyWhereAllowed, CookieIsolation and CookieReplay. TLC-simulated and seeded histories (request kinds x dry/skip/normal x advertised URL same/different x cookie-setting hosts x up to 3 clients) are executed on real OFXClient instances against fake servers installed below urllib's opener; the stateful trace specification carries the jars and issued cookies, predicts the POSTs of every call (host, cookie value) and reads each POST body itself (OFXFile) to decide the request kind and whose credentials it carries; method and headers are checked per POST.",
             "Trusted: TLC, the fake transport (only http_open/https_open replaced), the file layers. The urllib transport is the one installed here (requests is absent). Servers always answer a full profile (other server behaviours belong to C15).",
             "DESIGN.md section 6 C14"),
+    "C15": ("TLA+ ProfileCache protocol with the write variant and cache-key relation DETECTED on the real code: TLC explores 2 clients x server behaviours x crashes x interleavings; counterexamples are replayed on the real code by a step scheduler at the I/O boundary; independent scheduler exploration validated by a property-level stateful trace spec",
+            "The harness observes the real request_profile at its I/O boundary (builtins.open / os.replace / post_request wrapped from outside) to detect the write protocol (in place or write-aside-and-rename) and whether two clients with equal ORG/FID but different URLs share a cache file; TLC model-checks the protocol specification instantiated with those constants (2 clients, 1 crash, 3-4 calls, all interleavings; ~1M states) for CacheWholeOrAbsent, CacheNeverVanishes, CacheNeverOlder, SuccessFromOwnServer, AskedWithHeldDate, CacheBelongsToServer, FailureLeavesCache, StartNeverFailsOnCache, and every counterexample (JSON trace) is driven through the real code by the step scheduler. Independently the scheduler explores the real code - behaviour sequences (<= 3 exhaustively, <= 6 sampled) with fresh/restarted clients, a crash after each I/O step followed by further calls, interleavings of two writers, client pairs with equal/different ORG/FID/URL - and every I/O step and result is judged by the property-level trace specification.",
+            "Trusted: TLC, the protocol and property specifications, the scheduler (yield points only at I/O on the cache directory and at the network exchange; writes are unbuffered and split in two so torn writes are observable), byte-equality classification of cache files against the profiles the fake servers sent. Preemption inside pure-Python sections is not enumerated (they do not touch the cache). One known finding: concurrent lost update.",
+            "DESIGN.md section 6 C15"),
 }
 
 PENDING = {}
